@@ -526,6 +526,13 @@ func runCheck(o *Options) (int, *Evidence) {
 	if b, err := os.ReadFile(sigFile); err == nil {
 		_ = json.Unmarshal(b, &recorded)
 	}
+	// what the body of each contracted function did when the baseline was written (names of the
+	// functions it calls, channel operations): a "renamed" function must still do mostly that
+	fpFile := filepath.Join(o.verif, "specs", "baseline", "fingerprints.json")
+	fingerprints := map[string][]string{}
+	if b, err := os.ReadFile(fpFile); err == nil {
+		_ = json.Unmarshal(b, &fingerprints)
+	}
 	sp.Stale = map[string]*FuncSpec{}
 	var stale []string
 	// a contracted function that was only renamed: its contract names no function any more, and
@@ -542,7 +549,7 @@ func runCheck(o *Options) (int, *Evidence) {
 			if _, had := recorded[k2]; had {
 				continue
 			}
-			if namelessSig(fi2.obj) == recorded[k] && recvOf(k2) == recvOf(k) {
+			if namelessSig(fi2.obj) == recorded[k] && recvOf(k2) == recvOf(k) && similarBody(fingerprints[k], bodyFingerprint(fi2)) {
 				cands = append(cands, k2)
 			}
 		}
@@ -570,6 +577,7 @@ func runCheck(o *Options) (int, *Evidence) {
 			cur := namelessSig(fi.obj)
 			if o.writeBaseline {
 				recorded[k] = cur
+				fingerprints[k] = bodyFingerprint(fi)
 			} else if was, ok := recorded[k]; ok && was != cur {
 				sp.Stale[k] = sp.Funcs[k]
 				delete(sp.Funcs, k)
@@ -581,6 +589,9 @@ func runCheck(o *Options) (int, *Evidence) {
 	if o.writeBaseline && o.only == "" {
 		if b, err := json.MarshalIndent(recorded, "", " "); err == nil {
 			_ = os.WriteFile(sigFile, append(b, '\n'), 0o644)
+		}
+		if b, err := json.Marshal(fingerprints); err == nil {
+			_ = os.WriteFile(fpFile, append(b, '\n'), 0o644)
 		}
 	}
 	for _, k := range keys {
@@ -627,6 +638,7 @@ func runCheck(o *Options) (int, *Evidence) {
 		funcs = append(funcs, fi.name())
 		errs = append(errs, x.errs...)
 	}
+	var pendingErrs []string
 	if len(errs) > 0 {
 		sort.Strings(errs)
 		if len(errs) > 30 {
@@ -664,7 +676,16 @@ func runCheck(o *Options) (int, *Evidence) {
 				return 1, ev
 			}
 		}
-		return undecided(ev, errs...)
+		// the functions that could not be translated are left out; what the others say is still
+		// reported: a violation elsewhere stands, without one the run is undecided
+		pendingErrs = errs
+		var good []*Exec
+		for _, x := range execs {
+			if len(x.errs) == 0 {
+				good = append(good, x)
+			}
+		}
+		execs = good
 	}
 	prelude := w.prelude() + preludeExtra
 	for _, x := range execs {
@@ -1119,6 +1140,9 @@ func runCheck(o *Options) (int, *Evidence) {
 		}
 		return 1, ev
 	}
+	if len(pendingErrs) > 0 {
+		return undecided(ev, append(pendingErrs, undec...)...)
+	}
 	if len(vac) > 0 && len(undec) == 0 {
 		return undecided(ev, vac...)
 	}
@@ -1248,6 +1272,12 @@ func assumptions(sp *Specs, pk map[string]bool, prop string) []string {
 	sort.Strings(out)
 	out = append(out, "integers are mathematical in SMT; equality with the 64-bit machine result is proved at every + - * and conversion (safety obligations), except where listed above",
 		"float64 operations are uninterpreted", "the type parameter is an uninterpreted sort")
+	for p := range pk {
+		if strings.HasSuffix(p, "/internal/general") {
+			out = append(out, "values of a type parameter constrained to integer types (internal/general.DivideWithMin) are mathematical integers: no overflow obligations are generated for them, the width is not known")
+			break
+		}
+	}
 	return out
 }
 
@@ -1255,6 +1285,8 @@ func assumptions(sp *Specs, pk map[string]bool, prop string) []string {
 // replay/templates/BOUNDED.txt: clauses no contract within reach decides (floating point,
 // relations between two calls) are checked on the real code for a stated, finite scope. They are
 // labelled bounded in the evidence and never counted among the discharged obligations.
+var otherPropRe = regexp.MustCompile(`C\d\d(/C\d\d)*: [^\n]*`)
+
 func runBounded(o *Options, ev *Evidence) int {
 	b, err := os.ReadFile(filepath.Join(o.verif, "replay", "templates", "BOUNDED.txt"))
 	if err != nil {
@@ -1294,6 +1326,14 @@ func runBounded(o *Options, ev *Evidence) int {
 		}
 		entry["cases"] = cases
 		switch {
+		case failed && !namesProperty(out, o.prop) && otherPropRe.MatchString(out):
+			// the run that failed breaks the statement of another property (the templates stop at
+			// the first failing run): nothing is known about this property's statement beyond it
+			entry["result"] = "stopped at a run on which a statement of another property fails: " + clip(otherPropRe.FindString(out), 200)
+			fmt.Println("UNDECIDED bounded stand-in " + id + ": stopped at a run on which a statement of another property fails (" + clip(otherPropRe.FindString(out), 160) + ")")
+			if code == 0 {
+				code = 2
+			}
 		case failed:
 			name := "bounded:" + id
 			if whatK, ok := known[name]; ok {
@@ -1330,6 +1370,67 @@ func runBounded(o *Options, ev *Evidence) int {
 		}
 	}
 	return code
+}
+
+// bodyFingerprint: the names of the functions a body calls and its channel operations, sorted,
+// with repetitions.
+func bodyFingerprint(fi *FuncInfo) []string {
+	out := []string{}
+	if fi == nil || fi.decl == nil || fi.decl.Body == nil {
+		return out
+	}
+	ast.Inspect(fi.decl.Body, func(n ast.Node) bool {
+		switch t := n.(type) {
+		case *ast.CallExpr:
+			switch f := ast.Unparen(t.Fun).(type) {
+			case *ast.Ident:
+				out = append(out, f.Name)
+			case *ast.SelectorExpr:
+				out = append(out, f.Sel.Name)
+			}
+		case *ast.SendStmt:
+			out = append(out, "chan<-")
+		case *ast.UnaryExpr:
+			if t.Op == token.ARROW {
+				out = append(out, "<-chan")
+			}
+		case *ast.RangeStmt:
+			out = append(out, "range")
+		case *ast.ForStmt:
+			out = append(out, "for")
+		}
+		return true
+	})
+	sort.Strings(out)
+	return out
+}
+
+// similarBody: at least half of what either body does is done by the other as well (multiset
+// overlap); two bodies that do nothing of the kind recorded are similar. Without a recorded
+// fingerprint (baseline older than this rule) nothing is similar.
+func similarBody(was, is []string) bool {
+	if was == nil {
+		return false
+	}
+	if len(was) == 0 && len(is) == 0 {
+		return true
+	}
+	count := map[string]int{}
+	for _, w := range was {
+		count[w]++
+	}
+	common := 0
+	for _, w := range is {
+		if count[w] > 0 {
+			count[w]--
+			common++
+		}
+	}
+	larger := len(was)
+	if len(is) > larger {
+		larger = len(is)
+	}
+	return 2*common >= larger
 }
 
 // namelessSig: receiver, parameter and result types of a function without the parameter names
